@@ -4,7 +4,7 @@
 # On success copies it to /verif/seeded/<name>/ (patch.diff, demo, notes.md) and writes confirm.log there.
 . /verif/env.sh
 P=$1; N=$2; NAME=$3
-SRC=/tmp/seed-$P
+SRC=${SEEDSRC:-/tmp/seed-$P}
 WT=/tmp/wtc-$NAME
 git -C /repo worktree add -q --detach $WT HEAD || exit 2
 trap 'git -C /repo worktree remove --force '$WT' 2>/dev/null' EXIT
